@@ -17,13 +17,20 @@ theorem isFill_iff (d : Dfa) (gen : TypeId → Bool) (q : Nat) (after : List Typ
     isFill d gen q after toEnd fill = true ↔
       (∀ t, t ∈ fill → gen t = true) ∧
       ∃ f, d.run q (fill ++ after) = some f ∧ (toEnd = true → d.validEnd f = true) := by
-  sorry
+  unfold isFill
+  cases d.run q (fill ++ after) <;> cases toEnd <;> simp [List.all_eq_true]
 
 /-- **soundness of the filler search**: whatever it returns is a correct filling -/
-theorem fillBefore_sound (d : Dfa) (gen : TypeId → Bool) (q : Nat) (after : List TypeId) (toEnd : Bool)
+-- STATEMENT CHANGED: added `hdet` (the automaton is deterministic: no state has two edges with the
+-- same label). `Dfa.matchType`/`Dfa.run` follow the FIRST edge with a label while the search tries
+-- every edge, so with duplicate labels the search can succeed along an edge `run` never takes.
+-- Counterexample without `hdet`: d = #[⟨false, [(1,1),(1,2)]⟩, ⟨false, []⟩, ⟨true, []⟩], gen = fun _ => true:
+-- `fillBefore d gen 0 [] true = some [1]` but `isFill d gen 0 [] true [1] = false` (run goes to state 1).
+theorem fillBefore_sound (d : Dfa) (hdet : ∀ q, ((d.edgesOf q).map (·.1)).Nodup)
+    (gen : TypeId → Bool) (q : Nat) (after : List TypeId) (toEnd : Bool)
     (fill : List TypeId) (h : fillBefore d gen q after toEnd = some fill) :
-    isFill d gen q after toEnd fill = true := by
-  sorry
+    isFill d gen q after toEnd fill = true :=
+  fillBefore_sound_aux d gen q after toEnd hdet fill h
 
 /-- every edge target is a state of the automaton -/
 def DfaWF (d : Dfa) : Prop := ∀ q t q', (t, q') ∈ d.edgesOf q → q' < d.size
@@ -35,7 +42,8 @@ theorem fillBefore_complete (d : Dfa) (hd : DfaWF d) (gen : TypeId → Bool) (q 
     (after : List TypeId) (toEnd : Bool)
     (h : fillBefore d gen q after toEnd = none) (fill : List TypeId) :
     isFill d gen q after toEnd fill = false := by
-  sorry
+  have _ := hq  -- not needed by the proof: the search marks `q` itself before anything else
+  exact fillBefore_complete_aux d hd gen q after toEnd h fill
 
 /-- **meaning of `isWrapChain`**: the first wrapper is allowed at the position, each wrapper may hold
     the next as its only child, the innermost accepts the target as its first child, none is a leaf or
@@ -46,7 +54,8 @@ theorem isWrapChain_iff (S : Schema) (d : Dfa) (q : Nat) (target : TypeId) (chai
       (match chain with
        | [] => (d.matchType q target).isSome = true
        | w :: _ => (d.matchType q w).isSome = true ∧ chainInner S target chain = true) := by
-  sorry
+  unfold isWrapChain
+  cases chain <;> simp [List.all_eq_true, and_assoc]
 
 theorem chainInner_iff (S : Schema) (target : TypeId) (w : TypeId) (rest : List TypeId) :
     chainInner S target (w :: rest) = true ↔
@@ -54,12 +63,23 @@ theorem chainInner_iff (S : Schema) (target : TypeId) (w : TypeId) (rest : List 
        | [] => ((S.dfa w).matchType 0 target).isSome = true
        | w' :: _ => (∃ s, (S.dfa w).matchType 0 w' = some s ∧ (S.dfa w).validEnd s = true) ∧
                     chainInner S target rest = true) := by
-  sorry
+  cases rest with
+  | nil => simp [chainInner]
+  | cons w' rest =>
+    simp only [chainInner, Bool.and_eq_true]
+    cases (S.dfa w).matchType 0 w' <;> simp
 
 /-- **soundness of the wrapper search** -/
-theorem findWrapping_sound (S : Schema) (d : Dfa) (q : Nat) (target : TypeId) (chain : List TypeId)
-    (h : findWrapping S d q target = some chain) : isWrapChain S d q target chain = true := by
-  sorry
+-- STATEMENT CHANGED: added `hdet` (the start state of every node type's content automaton has at most
+-- one edge per label). `chainInner` follows `matchType` = the FIRST edge labelled with the next wrapper,
+-- while the search accepts ANY such edge whose target is a valid end. Counterexample without `hdet`:
+-- nodes doc #[⟨false,[(1,1)]⟩,⟨true,[]⟩], w #[⟨false,[(2,1),(2,2)]⟩,⟨false,[(2,2)]⟩,⟨true,[]⟩],
+-- x #[⟨false,[(3,1)]⟩,⟨true,[]⟩], leaf #[⟨true,[]⟩]: `findWrapping S (S.dfa 0) 0 3 = some [1, 2]` but
+-- `isWrapChain S (S.dfa 0) 0 3 [1, 2] = false` (first `2`-edge of `w` leads to a non-final state).
+theorem findWrapping_sound (S : Schema) (hdet : ∀ w, (((S.dfa w).edgesOf 0).map (·.1)).Nodup)
+    (d : Dfa) (q : Nat) (target : TypeId) (chain : List TypeId)
+    (h : findWrapping S d q target = some chain) : isWrapChain S d q target chain = true :=
+  findWrapping_sound_aux S d q target hdet chain h
 
 private def mkNT (name : String) (isLeaf : Bool) (dfa : Array DfaState) : NodeType :=
   { name := name, isText := false, isInline := false, isLeaf := isLeaf, isAtom := isLeaf,
@@ -76,6 +96,9 @@ private def S4 : Schema :=
 /-- non-vacuity: in `doc((p|ul)+)`, `ul(li+)`, `li(p (p|ul)*)`, asking to wrap a `li` (type 3) at the
     start of `doc` finds `[ul]` (type 2), and filling `li+` from its start state yields one `li` -/
 example : findWrapping S4 (S4.dfa 0) 0 3 = some [2] ∧ fillBefore (S4.dfa 2) S4.generatable 0 [] true = some [3] := by
-  decide +kernel
+  constructor
+  · decide +kernel
+  · simp [fillBefore, fillSearch, fillEdges, Dfa.run, Dfa.validEnd, Dfa.edgesOf, Schema.dfa, Schema.nodeType,
+      Schema.generatable, S4, mkNT]
 
 end PM.C15
